@@ -36,11 +36,12 @@ def _metric(spec, thr, k):
         return f, dict(t=float(thr.reshape(-1)[0]) if thr.size else 0.0, k=k), \
             lambda o: np.asarray(k * o.fnr(float(thr.reshape(-1)[0]) if thr.size else 0.0))
     if name == "call-vector":
-        f = lambda s, threshold, k: k + s.tpr(threshold)  # noqa: E731
-        return f, dict(threshold=thr, k=k), lambda o: np.asarray(k + o.tpr(thr))
+        f = lambda s, threshold, k: k * s.tpr(threshold)  # noqa: E731
+        return f, dict(threshold=thr, k=k), lambda o: np.asarray(k * o.tpr(thr))
     if name == "call-matrix":
+        ki = int(k) if abs(k) >= 1 else 3
         f = lambda s, threshold, k: k * s.cm(threshold).matrix  # noqa: E731
-        return f, dict(threshold=thr, k=int(k)), lambda o: np.asarray(int(k) * o.cm(thr).matrix)
+        return f, dict(threshold=thr, k=ki), lambda o: np.asarray(ki * o.cm(thr).matrix)
     if name == "call-ppv":
         # undefined (NaN) on samples without a predicted positive at the threshold
         f = lambda s, threshold: s.cm(threshold).ppv()  # noqa: E731
@@ -52,7 +53,7 @@ def _metric(spec, thr, k):
 
 
 SCORE_METRICS = ["tpr", "fnr", "fpr", "tonr", "threshold_at_fnr", "auc", "eer", "call-scalar",
-                 "call-vector", "call-matrix", "call-mean", "call-ppv", "call-ppv"]
+                 "call-vector", "call-vector", "call-scalar", "call-matrix", "call-mean", "call-ppv", "call-ppv"]
 GROUP_METRICS = ["group_fpr", "group_tnr", "group_fnr", "fnr", "call-vector", "call-mean"]
 
 
@@ -99,7 +100,8 @@ def _cases(draw):
     shape = draw(st.sampled_from([(), (1,), (3,), (2, 2)]))
     thr = draw(gen.threshold_values(d["pos"] + d["neg"], gen.shape_size(shape), allow_inf=False))
     builtin = draw(st.sampled_from(GROUP_BUILTIN if d["groups"] else BUILTIN))
-    return dict(d=d, metric=spec, thr=dict(shape=list(shape), flat=thr), k=draw(st.sampled_from([2.0, 3.0, -1.0])),
+    return dict(d=d, metric=spec, thr=dict(shape=list(shape), flat=thr),
+                k=draw(st.sampled_from([2.0, 3.0, -1.0, 1e-5, 1e-8, 1e6])),
                 nb=draw(st.integers(1, 12)), builtin=list(builtin), ratio=draw(st.sampled_from([0.5, 0.8])),
                 seed=draw(gen.RNG_SEED), seed2=draw(gen.RNG_SEED),
                 alpha=draw(st.sampled_from([0.05, 0.1, 0.3, 0.5])), ci=draw(st.sampled_from(CI_METHODS)))
@@ -188,7 +190,7 @@ def check(case):
             lo, up, _pole = reference(col, float(TH[j]), case["alpha"], case["ci"])
             if lo != lo:
                 continue
-            scale = max(1.0, max(abs(x) for x in fin))
+            scale = max(abs(x) for x in fin) or 1.0  # relative to the replicates (metrics of any scale)
             require(abs(G[j, 0] - lo) <= 1e-9 * scale and abs(G[j, 1] - up) <= 1e-9 * scale,
                     "bci:not-the-documented-formula",
                     lambda: f"{ctx} ci={case['ci']} alpha={case['alpha']}: component {j}: bootstrap_ci "
@@ -247,6 +249,61 @@ def check_seeds(case):
     return dict(nontrivial=True, labels=[])
 
 
+# ------------------------------------------------------------------ clause: sequences of configurations
+SEQ_CONFIGS = [("dynamic", None, False), ("dynamic", None, True), ("dynamic", "by_label", False),
+               ("replacement", None, False), ("replacement", None, True), ("single_pass", None, False),
+               ("single_pass", "by_label", False)]
+
+
+@st.composite
+def _seq_cases(draw):
+    big = draw(st.booleans())
+    n = draw(st.integers(100, 125) if big else st.integers(3, 12))
+    m = draw(st.integers(100, 125) if big else st.integers(3, 12))
+    return dict(n=n, m=m, ep=draw(st.sampled_from([0, 0, 4])), en=draw(st.sampled_from([0, 0, 9])),
+                perm=draw(st.integers(0, 10**6)), sc=draw(st.sampled_from(["pos", "neg"])),
+                steps=draw(st.lists(st.tuples(st.integers(0, len(SEQ_CONFIGS) - 1), st.integers(0, 2**31 - 1)),
+                                    min_size=2, max_size=4)),
+                nb=draw(st.integers(2, 4)))
+
+
+def check_sequence(case):
+    """Bootstrap calls with different configurations on ONE object give, under the same seed, what
+    a freshly constructed equal object gives (nothing remembered from an earlier configuration)."""
+    from score_analysis import BootstrapConfig, Scores
+
+    vals = (np.random.RandomState(case["perm"]).permutation(case["n"] + case["m"]) * 0.25).tolist()
+    pos, neg = vals[: case["n"]], vals[case["n"]:]
+
+    def build():
+        return Scores(np.asarray(pos), np.asarray(neg), nb_easy_pos=case["ep"], nb_easy_neg=case["en"],
+                      score_class=case["sc"])
+
+    def metric(s):
+        return np.asarray([s.pos.mean(), s.neg.mean(), len(s.pos), len(s.neg), s.nb_easy_pos])
+
+    o = build()
+    kinds = set()
+    for i, (ci, seed) in enumerate(case["steps"]):
+        method, strat, smoothing = SEQ_CONFIGS[ci]
+        cfg = BootstrapConfig(nb_samples=case["nb"], sampling_method=method, stratified_sampling=strat,
+                              smoothing=smoothing, bootstrap_method="quantile")
+        outs = []
+        for obj in (o, build()):
+            np.random.seed(seed)
+            try:
+                outs.append(("ok", obj.bootstrap_metric(metric, config=cfg)))
+            except ValueError as e:
+                outs.append(("ValueError", str(e)[:40]))
+        a, b = outs
+        same = a[0] == b[0] and (a[0] != "ok" or np.array_equal(a[1], b[1]))
+        require(same, "bm:depends-on-earlier-calls",
+                lambda: f"step {i} config={SEQ_CONFIGS[ci]} seed={seed} on an object that already ran "
+                        f"{[SEQ_CONFIGS[c] for c, _ in case['steps'][:i]]}: {a} but a fresh equal object gives {b}")
+        kinds.add(ci)
+    return dict(nontrivial=len(kinds) >= 2, labels=["big-source" if case["n"] >= 100 else "small-source"])
+
+
 PROP = Prop(
     id="C14",
     rule=("Hypothesis: Scores (easy counts 0/2/7) and GroupScores (2 groups) with distinct quarter "
@@ -265,6 +322,9 @@ PROP = Prop(
     clauses=[
         Clause("wiring", check, strategy=_cases(), quick=200, thorough=8000, quick_shards=4,
                min_nontrivial=100, doc="rows = metric of j-th sample; CI wiring; identity collapse"),
+        Clause("config_sequences", check_sequence, strategy=_seq_cases(), quick=150, thorough=1200,
+               quick_shards=2, shards=8, min_nontrivial=50,
+               doc="several configurations in a row on one object = fresh object each time"),
         Clause("seeds", check_seeds, strategy=_seed_cases(), quick=60, thorough=2400, shards=4,
                min_nontrivial=20, doc="reproducible per seed, different across seeds"),
     ],
